@@ -56,16 +56,16 @@ func c12Key(k int) string {
 }
 
 var c12Sites = []string{
-	"swamp:LockCapMu:1:Lock",
-	"swamp:UnlockCapMu:1:Unlock",
-	"swamp:CountMatchingTreasures:1:atomic.StoreInt64",
-	"beacon:CountMatching:2:RLock",
-	"swamp_patch_expired:PatchExpired:1:Lock",
-	"swamp:CloneAndDeleteMatchingTreasures:1:Lock",
-	"swamp_patch:PatchFields:1:StartTreasureGuard",
-	"beacon:SelectExpiredForPatchWithCap:2:Lock",
-	"swamp_patch_expired:applyPatchExpiredOne:1:StartTreasureGuard",
-	"gateway_patch:patchTreasuresOneSwamp:1:BeginVigil",
+	"swamp:LockCapMu:Lock:eb218e",
+	"swamp:UnlockCapMu:Unlock:9637f3",
+	"swamp:CountMatchingTreasures:atomic.StoreInt64:1cc3f1",
+	"beacon:CountMatching:RLock:554baa",
+	"swamp_patch_expired:PatchExpired:Lock:eb218e",
+	"swamp:CloneAndDeleteMatchingTreasures:Lock:eb218e",
+	"swamp_patch:PatchFields:StartTreasureGuard:f4a9b0",
+	"beacon:SelectExpiredForPatchWithCap:Lock:e380a5",
+	"swamp_patch_expired:applyPatchExpiredOne:StartTreasureGuard:f4a9b0",
+	"gateway_patch:patchTreasuresOneSwamp:BeginVigil:b2973a",
 }
 
 func genC12Plan(t *rapid.T) []vsched.Action {
@@ -81,7 +81,7 @@ func genC12Plan(t *rapid.T) []vsched.Action {
 			a.SleepUs = rapid.SampledFrom([]int{20, 200, 1000, 4000}).Draw(t, "us")
 		default:
 			a.Kind = "pause"
-			a.Until = rapid.SampledFrom([]string{"site:swamp:UnlockCapMu:1:Unlock", "site:swamp:LockCapMu:1:Lock", "site:swamp_patch_expired:applyPatchExpiredOne:1:StartTreasureGuard", "round-done"}).Draw(t, "until")
+			a.Until = rapid.SampledFrom([]string{"site:swamp:UnlockCapMu:Unlock:9637f3", "site:swamp:LockCapMu:Lock:eb218e", "site:swamp_patch_expired:applyPatchExpiredOne:StartTreasureGuard:f4a9b0", "round-done"}).Draw(t, "until")
 			a.MaxWaitMs = rapid.SampledFrom([]int{2, 10, 40}).Draw(t, "maxwait")
 			if a.Hit == 0 {
 				a.Hit = 1
@@ -622,7 +622,7 @@ func genC12Witness(t *rapid.T) C12Scenario {
 	}
 	b.DelayUs = 2000
 	s.Rounds = [][]C12Batch{{a, b}}
-	s.Plan = []vsched.Action{{Site: "swamp:LockCapMu:1:Lock", Hit: 1, Kind: "pause", Until: "site:swamp:UnlockCapMu:1:Unlock", MaxWaitMs: 800}}
+	s.Plan = []vsched.Action{{Site: "swamp:LockCapMu:Lock:eb218e", Hit: 1, Kind: "pause", Until: "site:swamp:UnlockCapMu:Unlock:9637f3", MaxWaitMs: 800}}
 	return s
 }
 
